@@ -217,6 +217,85 @@ w('C05', 'BENIGN: finality compared on time.Time with !Before', '',
 w('C05', 'BENIGN: isFinalized inlined into IsFinalized', '',
   (OUT, '\treturn k.isFinalized(ctx, bridgeId, output)\n}\n\nfunc (k Keeper) isFinalized(', '\tcfg, err := k.GetBridgeConfig(ctx, bridgeId)\n\tif err != nil {\n\t\treturn false, err\n\t}\n\treturn k.isFinalizedWithConfig(ctx, cfg, output)\n}\n\nfunc (k Keeper) isFinalized('))
 
+
+BR='x/ophost/keeper/bridge.go'
+TP='x/ophost/keeper/token_pair.go'
+# ---------------- C01
+w('C01', 'finalize pays from the escrow of another bridge (output index used as id)', 'C01.R2',
+  (HM, '\tbridgeAddr := types.BridgeAddress(bridgeId)\n\tif err := ms.bankKeeper.SendCoins(ctx, bridgeAddr, receiver,', '\tbridgeAddr := types.BridgeAddress(outputIndex)\n\tif err := ms.bankKeeper.SendCoins(ctx, bridgeAddr, receiver,'))
+w('C01', 'deposit counter keyed by constant 0 (global counter)', 'C01.R4',
+  (HM, 'l1Sequence, err := ms.IncreaseNextL1Sequence(ctx, bridgeId)', 'l1Sequence, err := ms.IncreaseNextL1Sequence(ctx, 0)'))
+w('C01', 'extra payout site: DeleteOutput refunds the challenger from escrow', 'C01.R1',
+  (HM, '\t// rollback next output index to the deleted output index\n', '\tif a, err := ms.authKeeper.AddressCodec().StringToBytes(challenger); err == nil {\n\t\t_ = ms.bankKeeper.SendCoins(ctx, types.BridgeAddress(bridgeId), a, sdk.NewCoins())\n\t}\n\t// rollback next output index to the deleted output index\n'))
+w('C01', 'deposit send error ignored', 'C01.R3',
+  (HM, '\t\tif err := ms.bankKeeper.SendCoins(ctx, sender, bridgeAddr, sdk.NewCoins(coin)); err != nil {\n\t\t\treturn nil, err\n\t\t}', '\t\t_ = ms.bankKeeper.SendCoins(ctx, sender, bridgeAddr, sdk.NewCoins(coin))'))
+w('C01', 'deposit escrowed under bridge id + 1', 'C01.R2',
+  (HM, '\t\tbridgeAddr := types.BridgeAddress(bridgeId)\n\t\tif err := ms.bankKeeper.SendCoins(ctx, sender, bridgeAddr', '\t\tbridgeAddr := types.BridgeAddress(bridgeId + 1)\n\t\tif err := ms.bankKeeper.SendCoins(ctx, sender, bridgeAddr'))
+w('C01', 'claim lookup for bridge 1 regardless of the message (cross-bridge claim set)', 'C01.R4',
+  (HM, 'if ok, err := ms.HasProvenWithdrawal(ctx, bridgeId, withdrawalHash); err != nil {', 'if ok, err := ms.HasProvenWithdrawal(ctx, 1, withdrawalHash); err != nil {'))
+w('C01', 'DeleteOutput rolls back the counter of bridge id 1', 'C01.R4',
+  (HM, 'if err := ms.NextOutputIndexes.Set(ctx, bridgeId, outputIndex); err != nil {', 'if err := ms.NextOutputIndexes.Set(ctx, 1, outputIndex); err != nil {'))
+w('C01', 'creation fee charged to the proposer instead of the creator', 'C01.R2',
+  (HM, 'creator, err := ms.authKeeper.AddressCodec().StringToBytes(req.Creator)', 'creator, err := ms.authKeeper.AddressCodec().StringToBytes(req.Config.Proposer)'))
+w('C01', 'RecordBatch creates an account', 'C01.R5',
+  (HM, '\tsdk.UnwrapSDKContext(ctx).EventManager().EmitEvent(\n\t\tsdk.NewEvent(\n\t\t\ttypes.EventTypeRecordBatch,', '\tms.authKeeper.SetAccount(ctx, ms.authKeeper.NewAccount(ctx, types.NewBridgeAccountWithAddress(types.BridgeAddress(req.BridgeId))))\n\tsdk.UnwrapSDKContext(ctx).EventManager().EmitEvent(\n\t\tsdk.NewEvent(\n\t\t\ttypes.EventTypeRecordBatch,'))
+w('C01', 'BENIGN: BridgeAddress computed before the checks; coin local renamed', '',
+  (HM, '\tbridgeId := req.BridgeId\n\toutputIndex := req.OutputIndex\n\tl2Sequence := req.Sequence\n\tamount := req.Amount.Amount\n\tdenom := req.Amount.Denom\n', '\tbridgeId := req.BridgeId\n\tescrow := types.BridgeAddress(bridgeId)\n\toutputIndex := req.OutputIndex\n\tl2Sequence := req.Sequence\n\tamount := req.Amount.Amount\n\tdenom := req.Amount.Denom\n'),
+  (HM, '\tbridgeAddr := types.BridgeAddress(bridgeId)\n\tif err := ms.bankKeeper.SendCoins(ctx, bridgeAddr, receiver,', '\tif err := ms.bankKeeper.SendCoins(ctx, escrow, receiver,'))
+
+# ---------------- C10
+w('C10', '(repaired tree) bridge-existence check removed from InitiateTokenDeposit', 'C10.R1',
+  (HM, '\tif _, err := ms.GetBridgeConfig(ctx, bridgeId); err != nil {\n\t\treturn nil, err\n\t}\n\n\tl1Sequence', '\tl1Sequence'))
+w('C10', 'bridge-existence check looks at bridge 1', 'C10.R1',
+  (HM, '\tif _, err := ms.GetBridgeConfig(ctx, bridgeId); err != nil {\n\t\treturn nil, err\n\t}\n\n\tl1Sequence', '\tif _, err := ms.GetBridgeConfig(ctx, 1); err != nil {\n\t\treturn nil, err\n\t}\n\n\tl1Sequence'))
+w('C10', 'event from <- req.To', 'C10.R3',
+  (HM, '\t\tsdk.NewAttribute(types.AttributeKeyFrom, req.Sender),\n\t\tsdk.NewAttribute(types.AttributeKeyTo, req.To),\n\t\tsdk.NewAttribute(types.AttributeKeyL1Denom, coin.Denom),\n\t\tsdk.NewAttribute(types.AttributeKeyL2Denom, l2Denom),\n\t\tsdk.NewAttribute(types.AttributeKeyAmount, coin.Amount.String()),\n\t\tsdk.NewAttribute(types.AttributeKeyData,',
+       '\t\tsdk.NewAttribute(types.AttributeKeyFrom, req.To),\n\t\tsdk.NewAttribute(types.AttributeKeyTo, req.To),\n\t\tsdk.NewAttribute(types.AttributeKeyL1Denom, coin.Denom),\n\t\tsdk.NewAttribute(types.AttributeKeyL2Denom, l2Denom),\n\t\tsdk.NewAttribute(types.AttributeKeyAmount, coin.Amount.String()),\n\t\tsdk.NewAttribute(types.AttributeKeyData,'))
+w('C10', 'event drops the data payload', 'C10.R3',
+  (HM, '\t\tsdk.NewAttribute(types.AttributeKeyData, hex.EncodeToString(req.Data)),\n', ''),
+  (HM, '\t"encoding/hex"\n', '\t"encoding/hex"\n\t_ "embed"\n'),
+  (HM, 'sdk.NewAttribute(types.AttributeKeyOutputRoot, hex.EncodeToString(outputRoot)),', 'sdk.NewAttribute(types.AttributeKeyOutputRoot, hex.EncodeToString(outputRoot)),'))
+w('C10', 'response carries sequence + 1', 'C10.R3',
+  (HM, '\t\tSequence: l1Sequence,\n', '\t\tSequence: l1Sequence + 1,\n'))
+w('C10', 'token pair written on every deposit (outside the !ok branch)', 'C10.R4',
+  (HM, '\t} else if !ok {\n\t\tif err := ms.SetTokenPair(ctx, bridgeId, l2Denom, coin.Denom); err != nil {', '\t} else if !ok || true {\n\t\tif err := ms.SetTokenPair(ctx, bridgeId, l2Denom, coin.Denom); err != nil {'))
+w('C10', 'token pair value is the l2 denom', 'C10.R4',
+  (HM, 'ms.SetTokenPair(ctx, bridgeId, l2Denom, coin.Denom)', 'ms.SetTokenPair(ctx, bridgeId, l2Denom, l2Denom)'))
+w('C10', 'sequence helper stores next + 2', 'C10.R2',
+  (BR, 'k.NextL1Sequences.Set(ctx, bridgeId, nextL1Sequence+1)', 'k.NextL1Sequences.Set(ctx, bridgeId, nextL1Sequence+2)'))
+w('C10', 'sequence increased twice per deposit', 'C10.R2',
+  (HM, '\t// transfer only positive amount\n', '\tif _, err := ms.IncreaseNextL1Sequence(ctx, bridgeId); err != nil {\n\t\treturn nil, err\n\t}\n\t// transfer only positive amount\n'))
+w('C10', 'new remover of token pairs in DeleteOutput', 'C10.R4',
+  (HM, '\t// rollback next output index to the deleted output index\n', '\t_ = ms.TokenPairs.Clear(ctx, nil)\n\t// rollback next output index to the deleted output index\n'))
+w('C10', 'BENIGN: event attributes reordered, tuple-form rewritten as two statements', '',
+  (HM, '\tif ok, err := ms.HasTokenPair(ctx, bridgeId, l2Denom); err != nil {\n\t\treturn nil, err\n\t} else if !ok {\n\t\tif err := ms.SetTokenPair(ctx, bridgeId, l2Denom, coin.Denom); err != nil {\n\t\t\treturn nil, err\n\t\t}\n\t}',
+       '\texists, err := ms.HasTokenPair(ctx, bridgeId, l2Denom)\n\tif err != nil {\n\t\treturn nil, err\n\t}\n\tif !exists {\n\t\tif err := ms.SetTokenPair(ctx, bridgeId, l2Denom, coin.Denom); err != nil {\n\t\t\treturn nil, err\n\t\t}\n\t}'),
+  (HM, '\t\tsdk.NewAttribute(types.AttributeKeyFrom, req.Sender),\n\t\tsdk.NewAttribute(types.AttributeKeyTo, req.To),\n\t\tsdk.NewAttribute(types.AttributeKeyL1Denom, coin.Denom),', '\t\tsdk.NewAttribute(types.AttributeKeyTo, req.To),\n\t\tsdk.NewAttribute(types.AttributeKeyFrom, req.Sender),\n\t\tsdk.NewAttribute(types.AttributeKeyL1Denom, coin.Denom),'))
+
+# ---------------- C11
+w('C11', 'L2 block number check <= weakened to <', 'C11.R1',
+  (HM, 'if l2BlockNumber <= lastOutputProposal.L2BlockNumber {', 'if l2BlockNumber < lastOutputProposal.L2BlockNumber {'))
+w('C11', 'output index equality test skipped', 'C11.R1',
+  (HM, '\tif outputIndex != req.OutputIndex {', '\tif false && outputIndex != req.OutputIndex {'))
+w('C11', 'previous output looked up at the same index (never found ordering)', 'C11.R1',
+  (HM, 'ms.GetOutputProposal(ctx, bridgeId, outputIndex-1)', 'ms.GetOutputProposal(ctx, bridgeId, outputIndex-2)'))
+w('C11', 'stored L2 block number is the previous one', 'C11.R1',
+  (HM, '\t\tL2BlockNumber: l2BlockNumber,\n', '\t\tL2BlockNumber: l2BlockNumber - 1,\n'))
+w('C11', 'counter rolled back to outputIndex+1', 'C11.R2',
+  (HM, 'ms.NextOutputIndexes.Set(ctx, bridgeId, outputIndex); err != nil {', 'ms.NextOutputIndexes.Set(ctx, bridgeId, outputIndex+1); err != nil {'))
+w('C11', 'deletion loop starts at outputIndex+1', 'C11.R2',
+  (HM, 'for i := outputIndex; i < nextOutputIndex; i++ {', 'for i := outputIndex + 1; i < nextOutputIndex; i++ {'))
+w('C11', 'deletion loop stops one short', 'C11.R2',
+  (HM, 'for i := outputIndex; i < nextOutputIndex; i++ {', 'for i := outputIndex; i+1 < nextOutputIndex; i++ {'))
+w('C11', 'deletion guard >= weakened to >', 'C11.R2',
+  (HM, '\tif outputIndex >= nextOutputIndex {', '\tif outputIndex > nextOutputIndex {'))
+w('C11', 'deleter error ignored inside the loop', 'C11.R2',
+  (HM, '\t\tif err := ms.DeleteOutputProposal(ctx, bridgeId, i); err != nil {\n\t\t\treturn nil, err\n\t\t}', '\t\t_ = ms.DeleteOutputProposal(ctx, bridgeId, i)'))
+w('C11', 'UpdateProposer resets the output counter', 'C11.R3',
+  (HM, '\tconfig.Proposer = req.NewProposer\n', '\tconfig.Proposer = req.NewProposer\n\t_ = ms.NextOutputIndexes.Set(ctx, bridgeId, 1)\n'))
+w('C11', 'BENIGN: deletion loop as while-style loop with renamed variable', '',
+  (HM, '\tfor i := outputIndex; i < nextOutputIndex; i++ {\n\t\tif err := ms.DeleteOutputProposal(ctx, bridgeId, i); err != nil {\n\t\t\treturn nil, err\n\t\t}\n\t}', '\tcur := outputIndex\n\tfor cur < nextOutputIndex {\n\t\tif err := ms.DeleteOutputProposal(ctx, bridgeId, cur); err != nil {\n\t\t\treturn nil, err\n\t\t}\n\t\tcur = cur + 1\n\t}'))
+
 #@@MORE@@
 for p,l in W.items():
     json.dump(l, open(os.path.join(HERE,p+'.json'),'w'), indent=1)
